@@ -69,6 +69,18 @@ ${helper()}
 %>
 ${m3()}
 """,
+    "tags": """<%inherit file="${m1()}"/>
+<%namespace name="ns" file="${m2()}"/>
+<%page args="pa=3"/>
+text line
+<%include file="${m4()}" args="q=m5()"/>
+<%ns:somedef a="${m6()}">
+  ${m7()}
+</%ns:somedef>
+<%def name="d(x=8)">
+  in d
+</%def>
+<%call expr="d(m9())"></%call>
+last ${m10()}
+""",
 }
-
-
